@@ -14,8 +14,9 @@
    are distinct keys in the code and in the model and are outside the claim. *)
 From QV.lib Require Import Prelude.
 From QV.model Require Import C19_Model.
+From QV.model Require Import C19_Model2.
 From QV.proof Require Import C19_Proofs_Keys C19_Proofs_Set C19_Proofs_Update C19_Proofs_Ctx
-  C19_Proofs_Hist C19_Proofs_Last.
+  C19_Proofs_Hist C19_Proofs_Last C19_Proofs_Nested C19_Proofs_With C19_Proofs_Ext.
 From Coq Require Import String Ascii.
 
 (* ------------------------------------------------------------------ get after set *)
@@ -373,4 +374,330 @@ Example C19_nonvacuous_ctx :
 Proof.
   eexists. eexists. split; [vm_compute; reflexivity|]. split; [reflexivity|]. split; [discriminate|].
   apply (C19_ctx_restores validate_nogpu ex_arg ex_kw ex_d). vm_compute. reflexivity.
+Qed.
+
+(* ================================================================== round 3 *)
+Local Close Scope string_scope.
+
+(* ------------------------------------------------------------------ update_defaults, keys at any depth *)
+(* the rule of C19_update_defaults_semantics for a leaf at ANY depth of the new defaults (induction
+   on the tree): after a successful update_defaults(new), a leaf x at path q reads back (either
+   spelling q') as x iff the entry was absent — also: hidden below a scalar, which update replaces
+   by a mapping — or still equal to what the accumulated defaults `cur` hold at q'; otherwise the
+   stored value stays.  nd_res g dg x spells this out (g, dg: the entry / the default, None = none). *)
+Theorem C19_update_defaults_semantics_nested :
+  forall validate new s s',
+    (good (Node (conf s)) /\ Forall (fun d => good (Node d)) (dflts s)) ->
+    good (Node new) -> update_defaults validate new s = (s', None) ->
+    exists new' cur,
+      check_items validate new = inr new' /\ merge validate (dflts s) = (cur, None) /\
+      dflts s' = dflts s ++ [new'] /\
+      forall q q' x, pure_path q -> pure_path q' -> nodev q -> same_path q q' -> q <> [] ->
+        get_path q (Node new) = inr (Leaf x) ->
+        get_path q' (Node (conf s')) =
+          inr (nd_res (ok_of (get_path q' (Node (conf s)))) (ok_of (get_path q' (Node cur))) x).
+Proof. exact update_defaults_rule_nested. Qed.
+Print Assumptions C19_update_defaults_semantics_nested.
+
+(* the same rule for update(old, new, priority="new-defaults", defaults=dv) itself *)
+Theorem C19_update_new_defaults_get :
+  forall validate new, good new -> forall old dv old' q q' x,
+    good (Node old) -> dv_good dv -> pure_path q -> pure_path q' -> nodev q -> same_path q q' -> q <> [] ->
+    get_path q new = inr (Leaf x) ->
+    update_cfg validate PNewDefaults new old dv = (old', None) ->
+    get_path q' (Node old') = inr (nd_res (ok_of (get_path q' (Node old))) (dv_at q' dv) x).
+Proof. exact update_nd_get. Qed.
+Print Assumptions C19_update_new_defaults_get.
+
+(* ------------------------------------------------------------------ last writer: with-blocks after the set *)
+(* C19_get_last_writer with arbitrary ops after the set: plain statements AND with-blocks (both
+   exception disciplines) whose arguments and body statements write other keys; whatever happens
+   inside — statements that raise, a body left by an exception, an __exit__ that raises half-way —
+   the value set is what get returns afterwards, under either spelling.  The store before the set
+   is any store satisfying the one-spelling invariant (in particular every reachable one, and the
+   store after import, C19_import_store_inv). *)
+Theorem C19_get_last_writer_ops :
+  forall validate s1 key v v' d2 r key' post,
+    (good (Node (conf s1)) /\ Forall (fun d => good (Node d)) (dflts s1)) ->
+    key_ok key -> good v -> key_ok key' -> nodev (path_of key') ->
+    same_path (path_of key) (path_of key') ->
+    check_key_val validate key v = inr v' ->
+    set_item validate key v (conf s1) = inr (d2, r) ->
+    Forall (no_write_op key') post ->
+    C19_Model.get key' (conf (run validate post {| conf := d2; dflts := dflts s1 |})) = inr v'.
+Proof. exact get_last_writer_from. Qed.
+Print Assumptions C19_get_last_writer_ops.
+
+(* one undo step of __exit__ on a path that misses the key leaves the key alone *)
+Theorem C19_exit_keeps_other_keys :
+  forall rrecs d d' e q x,
+    Forall rec_ok rrecs -> Forall (rec_div q) rrecs -> good (Node d) -> pure_path q ->
+    restore_all rrecs d = (d', e) ->
+    get_path q (Node d) = inr x -> get_path q (Node d') = inr x.
+Proof. exact restore_all_keeps. Qed.
+Print Assumptions C19_exit_keeps_other_keys.
+
+(* ------------------------------------------------------------------ siblings without the nodev side condition *)
+(* C19_update_preserves_siblings for paths that may contain "device", given that validate_device
+   rejects mappings (it raises TypeError for a dict; true of validate_nogpu) *)
+Theorem C19_update_preserves_siblings_anydev :
+  forall validate, (forall l, exists e, validate (Node l) = inl e) ->
+  forall new, good new -> forall prio old dv old' e q x,
+    good (Node old) -> pure_path q ->
+    (forall w, In w (wpaths new) -> diverge w q) ->
+    update_cfg validate prio new old dv = (old', e) ->
+    get_path q (Node old) = inr x -> get_path q (Node old') = inr x.
+Proof. exact update_siblings_anydev. Qed.
+Print Assumptions C19_update_preserves_siblings_anydev.
+
+(* ------------------------------------------------------------------ get with default / override_with *)
+Theorem C19_get_full_spec :
+  forall key dflt d,
+    (forall o, is_none o = false -> get_full key dflt (Some o) d = inr o) /\
+    get_full key dflt (Some (Leaf JNone)) d = get_full key dflt None d /\
+    get_full key None None d = C19_Model.get key d /\
+    (forall x, get_full key (Some x) None d = inr (get_or key x d)) /\
+    (forall e, get_full key None None d = inl e -> e = KeyErr \/ e = TypeErr) /\
+    (forall c, C19_Model.get key d = inr c -> get_full key dflt None d = inr c).
+Proof. exact get_full_spec. Qed.
+Print Assumptions C19_get_full_spec.
+
+(* a dotted key that continues below a scalar raises TypeError (not KeyError) *)
+Theorem C19_get_into_scalar :
+  forall p k r c x, get_path p c = inr (Leaf x) -> get_path (p ++ k :: r) c = inl TypeErr.
+Proof. exact get_path_into_scalar. Qed.
+Print Assumptions C19_get_into_scalar.
+
+(* ------------------------------------------------------------------ deprecations / aliases tables *)
+(* both tables are empty in the code today: the table-aware check_key_val / set / update are the
+   functions all other theorems speak about *)
+Theorem C19_tables_empty :
+  forall validate,
+    (forall key v, check_key_val_t validate [] [] key v = check_key_val validate key v) /\
+    (forall l d recs, set_items_t validate [] [] l d recs = set_items validate l d recs) /\
+    (forall arg kw d, set_call_t validate [] [] arg kw d = set_call validate arg kw d) /\
+    (forall prio new old dv, update_items_t validate [] [] prio new old dv = update_items validate prio new old dv).
+Proof. exact tables_empty. Qed.
+Print Assumptions C19_tables_empty.
+
+(* with any tables: a removed key raises ValueError; a renamed key only warns (it is NOT replaced
+   by its new name — unlike the docstring of check_key_val suggests); an alias replaces the value
+   before the device check, so a stored device is still a validated one *)
+Theorem C19_tables_semantics :
+  forall validate depr alias key v,
+    (alookup key depr = Some None -> check_key_val_t validate depr alias key v = inl ValueErr) /\
+    (forall s, alookup key depr = Some (Some s) -> s <> EmptyString ->
+       check_key_val_t validate depr alias key v = check_key_val_t validate [] alias key v) /\
+    (alookup key depr = None -> forall v1, alias_val alias key v = inr v1 ->
+       check_key_val_t validate depr alias key v = check_key_val validate key v1) /\
+    (forall v', check_key_val_t validate depr alias "device" v = inr v' ->
+       exists s, v' = Leaf (JStr s) /\ (s = "cpu"%string \/ exists w, validate w = inr s)).
+Proof. exact tables_semantics. Qed.
+Print Assumptions C19_tables_semantics.
+
+Theorem C19_set_removed_key :
+  forall validate depr alias l1 k v l2 d recs,
+    alookup k depr = Some None ->
+    set_items_t validate depr alias (l1 ++ (k, v) :: l2) d recs =
+    match set_items_t validate depr alias l1 d recs with
+    | (d1, r1, None) => (d1, r1, Some ValueErr)
+    | x => x
+    end.
+Proof. exact set_removed_key. Qed.
+Print Assumptions C19_set_removed_key.
+
+(* ------------------------------------------------------------------ environment variables *)
+(* collect() takes the environment mapping and does not read it (the collect_env entry is
+   commented out in the code): refresh is independent of the environment *)
+Theorem C19_refresh_ignores_env :
+  forall validate yaml env s,
+    refresh_e validate yaml env s = refresh validate yaml s /\
+    collect validate yaml env = merge validate yaml.
+Proof. exact refresh_ignores_env. Qed.
+Print Assumptions C19_refresh_ignores_env.
+
+(* ------------------------------------------------------------------ "device" off the top level *)
+Theorem C19_device_off_top_level :
+  forall validate,
+    (forall d x v, lookup "device" d = Some (Leaf x) -> set_item validate "device.x" v d = inl TypeErr) /\
+    (forall d v, lookup "device" d = None ->
+       set_item validate "device.x" v d =
+       inr (assign "device" (Node [("x"%string, v)]) d, (["device"%string], None))) /\
+    (forall d v sub, lookup "viz" d = Some (Node sub) -> lookup "device" sub = None ->
+       set_item validate "viz.device" v d =
+       inr (assign "viz" (Node (assign "device" v sub)) d, (["viz"; "device"]%string, None))) /\
+    (forall prio k v e old dv dv', k <> "device"%string -> cpu_request v = false -> validate v = inl e ->
+       dsub dv (canon k old) = inr dv' ->
+       update_cfg validate prio (Node [(k, Node [("device"%string, v)])]) old dv =
+       (assign (canon k old) (Node (subdict (canon k old) old)) old, Some e)).
+Proof. exact device_off_top_level. Qed.
+Print Assumptions C19_device_off_top_level.
+
+(* ------------------------------------------------------------------ histories from the store after import *)
+(* both reachable-state invariants hold from ANY store that satisfies them, not only the empty one *)
+Theorem C19_invariants_from :
+  forall validate s0 ops,
+    (good (Node (conf s0)) /\ Forall (fun d => good (Node d)) (dflts s0)) ->
+    dev_ok validate (conf s0) -> Forall op_ok ops ->
+    (good (Node (conf (run validate ops s0))) /\ Forall (fun d => good (Node d)) (dflts (run validate ops s0))) /\
+    dev_ok validate (conf (run validate ops s0)).
+Proof. exact invariants_from. Qed.
+Print Assumptions C19_invariants_from.
+
+(* the store after `import quantem.core.config` (refresh of the probe defaults, then
+   update_defaults of the parsed quantem.yaml) satisfies both, when the two mappings are good *)
+Theorem C19_import_store_inv :
+  forall validate probe yaml,
+    good (Node probe) -> good (Node yaml) ->
+    (good (Node (conf (fst (import_store validate probe yaml)))) /\
+     Forall (fun d => good (Node d)) (dflts (fst (import_store validate probe yaml)))) /\
+    dev_ok validate (conf (fst (import_store validate probe yaml))).
+Proof. exact import_store_inv. Qed.
+Print Assumptions C19_import_store_inv.
+
+(* refresh restores exactly the accumulated defaults whatever was set in between: after any
+   statements and with-blocks that do not call update_defaults, refresh gives what it gave before *)
+Theorem C19_refresh_after_sets :
+  forall validate ops yaml s,
+    Forall no_upd ops ->
+    conf (fst (refresh validate yaml (run validate ops s))) = conf (fst (refresh validate yaml s)) /\
+    dflts (fst (refresh validate yaml (run validate ops s))) = dflts s.
+Proof. exact refresh_after_sets. Qed.
+Print Assumptions C19_refresh_after_sets.
+
+Theorem C19_goodb_sound : forall c, goodb c = true -> good c.
+Proof. exact goodb_sound. Qed.
+Print Assumptions C19_goodb_sound.
+
+(* ------------------------------------------------------------------ nested with-blocks *)
+(* a tree of with-blocks nested to any depth (either exception discipline at every level) whose
+   plain statements only raise and whose every __init__ succeeds leaves the store exactly as it
+   was *)
+Theorem C19_nest_restores :
+  forall validate t s, clean validate t s -> fst (fst (exec validate t s)) = s.
+Proof. exact nest_restores. Qed.
+Print Assumptions C19_nest_restores.
+
+(* ------------------------------------------------------------------ non-vacuity, round 3 *)
+Local Open Scope string_scope.
+
+Definition ex3_s : store :=
+  {| conf := [("viz", Node [("cmap", Leaf (JStr "gray")); ("real-space-units", Leaf (JStr "A"))]);
+              ("mkl", Leaf (JInt 2))];
+     dflts := [[("viz", Node [("cmap", Leaf (JStr "gray")); ("real_space_units", Leaf (JStr "nm"))])]] |}.
+Definition ex3_new : items :=
+  [("viz", Node [("cmap", Leaf (JStr "magma")); ("real_space_units", Leaf (JStr "um")); ("extra", Leaf (JInt 1))]);
+   ("mkl", Node [("threads", Leaf (JInt 4))])].
+
+(* still the default -> follows; changed by the user -> kept; absent -> added; hidden below a
+   scalar -> the scalar is replaced by a mapping *)
+Example C19_nonvacuous_nested_rule :
+  (good (Node (conf ex3_s)) /\ Forall (fun d => good (Node d)) (dflts ex3_s)) /\ good (Node ex3_new) /\
+  update_defaults validate_nogpu ex3_new ex3_s =
+    ({| conf := [("viz", Node [("cmap", Leaf (JStr "magma")); ("real-space-units", Leaf (JStr "A")); ("extra", Leaf (JInt 1))]);
+                 ("mkl", Node [("threads", Leaf (JInt 4))])];
+        dflts := dflts ex3_s ++ [ex3_new] |}, None) /\
+  nd_res (ok_of (get_path ["viz"; "cmap"] (Node (conf ex3_s)))) (Some (Leaf (JStr "gray"))) (JStr "magma") = Leaf (JStr "magma") /\
+  nd_res (ok_of (get_path ["mkl"; "threads"] (Node (conf ex3_s)))) None (JInt 4) = Leaf (JInt 4).
+Proof.
+  split; [split; [unfold ex3_s; cbn [conf]; good_tac | constructor; [good_tac|constructor]]|].
+  split; [unfold ex3_new; good_tac|]. split; [vm_compute; reflexivity|]. split; vm_compute; reflexivity.
+Qed.
+
+(* a with-block after the set: its argument writes a sibling, its body rebuilds part of the store
+   and raises; the value set before survives under the other spelling *)
+Example C19_nonvacuous_last_writer_with :
+  exists d2 r,
+    set_item validate_nogpu "viz.real_space_units" (Leaf (JStr "nm")) (conf ex3_s) = inr (d2, r) /\
+    Forall (no_write_op "viz.real-space-units")
+      [WithX (Some (Node [("viz.cmap", Leaf (JInt 3)); ("fresh.k", Leaf (JInt 1))])) []
+             [SUpd [("mkl", Node [("threads", Leaf (JInt 8))])]; SSet (Some (Leaf JNone)) []];
+       Do (SSet None [("alpha", Leaf JNone)])] /\
+    C19_Model.get "viz.real-space-units"
+      (conf (run validate_nogpu
+               [WithX (Some (Node [("viz.cmap", Leaf (JInt 3)); ("fresh.k", Leaf (JInt 1))])) []
+                      [SUpd [("mkl", Node [("threads", Leaf (JInt 8))])]; SSet (Some (Leaf JNone)) []];
+                Do (SSet None [("alpha", Leaf JNone)])]
+               {| conf := d2; dflts := dflts ex3_s |})) = inr (Leaf (JStr "nm")).
+Proof.
+  eexists. eexists. split; [vm_compute; reflexivity|]. split; [|vm_compute; reflexivity].
+  repeat (apply Forall_cons); try apply Forall_nil; cbn [no_write_op no_write arg_ok set_args kw_items map app].
+  - split; [repeat (constructor; [split; [pp_tac | good_tac]|]); constructor|]. split; [constructor|]. split.
+    + intros key v [E|[E|[]]]; inversion E; subst; vm_compute.
+      * right. split; [reflexivity|]. left. discriminate.
+      * left. discriminate.
+    + repeat (apply Forall_cons); try apply Forall_nil; cbn [no_write arg_ok set_args kw_items map app].
+      * split; [good_tac|]. intros w [<-|[]]. vm_compute. left. discriminate.
+      * split; [exact I|]. split; [constructor|]. intros key v [].
+  - split; [exact I|]. split; [constructor; [split; [pp_tac | good_tac]|constructor]|].
+    intros key v [E|[]]. inversion E; subst. vm_compute. left. discriminate.
+Qed.
+
+Example C19_nonvacuous_get_full :
+  get_full "viz.cmap.x" None None (conf ex3_s) = inl TypeErr /\
+  get_full "viz.cmap.x" (Some (Leaf (JInt 7))) None (conf ex3_s) = inr (Leaf (JInt 7)) /\
+  get_full "viz.nope" None None (conf ex3_s) = inl KeyErr /\
+  get_full "viz.cmap" (Some (Leaf (JInt 7))) (Some (Leaf JNone)) (conf ex3_s) = inr (Leaf (JStr "gray")) /\
+  get_full "viz.cmap" None (Some (Leaf (JInt 5))) (conf ex3_s) = inr (Leaf (JInt 5)).
+Proof. repeat split; vm_compute; reflexivity. Qed.
+
+(* the alias table the code carries as a comment, and a removed / a renamed key *)
+Example C19_nonvacuous_tables :
+  let depr := [("old_key", Some "new_key"); ("gone", None)] in
+  let alias := [("device", [(JStr "gpu", JStr "cpu:0")])] in
+  check_key_val_t validate_nogpu depr alias "gone" (Leaf (JInt 1)) = inl ValueErr /\
+  check_key_val_t validate_nogpu depr alias "old_key" (Leaf (JInt 1)) = inr (Leaf (JInt 1)) /\
+  check_key_val_t validate_nogpu depr alias "device" (Leaf (JStr "gpu")) = inr (Leaf (JStr "cpu")) /\
+  check_key_val_t validate_nogpu depr [] "device" (Leaf (JStr "gpu")) = inl RuntimeErr /\
+  set_items_t validate_nogpu depr alias [("a", Leaf (JInt 1)); ("gone", Leaf (JInt 2)); ("b", Leaf (JInt 3))] [] [] =
+    ([("a", Leaf (JInt 1))], [(["a"], None)], Some ValueErr) /\
+  update_items_t validate_nogpu depr alias PNew [("s", Node [("a", Leaf (JInt 1)); ("gone", Leaf (JInt 2))]); ("b", Leaf (JInt 3))] [] None =
+    ([("s", Node [("a", Leaf (JInt 1))])], Some ValueErr).
+Proof. repeat split; vm_compute; reflexivity. Qed.
+
+(* QUANTEM_FOO__BAR lands under "em_foo" (five characters dropped, not eight); refresh never sees it *)
+Example C19_nonvacuous_env :
+  collect_env validate_nogpu [("QUANTEM_FOO__BAR-BAZ", Leaf (JInt 1)); ("HOME", Leaf (JStr "/root"))] =
+    ([("em_foo", Node [("bar-baz", Leaf (JInt 1))])], None) /\
+  refresh_e validate_nogpu [] [("QUANTEM_DTYPE_REAL", Leaf (JStr "float64"))] ex3_s = refresh validate_nogpu [] ex3_s.
+Proof. split; vm_compute; reflexivity. Qed.
+
+Example C19_nonvacuous_anydev : forall l, exists e, validate_nogpu (Node l) = inl e.
+Proof. exact validate_nogpu_mapping. Qed.
+
+(* with A: (with B: raise) ; (with C: pass)  — restored at every level *)
+Definition ex3_nest : stmt :=
+  Block false (Some (Node [("viz.cmap", Leaf (JInt 1)); ("fresh.k", Leaf (JInt 2))])) []
+    [Block true None [("viz__cmap", Leaf (JInt 5)); ("mkl", Leaf JNone)] [Plain (SSet (Some (Leaf JNone)) [])];
+     Block false (Some (Node [("fresh.k", Leaf (JInt 9))])) [] []].
+
+Example C19_nonvacuous_nest :
+  clean validate_nogpu ex3_nest ex3_s /\
+  List.length (snd (exec validate_nogpu ex3_nest ex3_s)) = 7 /\
+  fst (exec validate_nogpu ex3_nest ex3_s) = (ex3_s, None).
+Proof.
+  split; [|split; vm_compute; reflexivity].
+  apply clean_block. eexists. eexists. split; [vm_compute; reflexivity|]. cbn [all_clean]. split; [|split; [|exact I]].
+  - apply clean_block. eexists. eexists. split; [vm_compute; reflexivity|]. cbn [all_clean]. split; [|exact I].
+    cbn [clean]. eexists. reflexivity.
+  - apply clean_block. eexists. eexists. split; [vm_compute; reflexivity|]. exact I.
+Qed.
+
+Example C19_nonvacuous_import :
+  let probe := [("has_torch", Leaf (JBool true)); ("has_cupy", Leaf (JBool false))] in
+  let yaml := [("device", Leaf (JStr "cpu")); ("viz", Node [("real_space_units", Leaf (JStr "A"))])] in
+  goodb (Node probe) = true /\ goodb (Node yaml) = true /\
+  import_store validate_nogpu probe yaml =
+    ({| conf := [("has_torch", Leaf (JBool true)); ("has_cupy", Leaf (JBool false)); ("device", Leaf (JStr "cpu"));
+                 ("viz", Node [("real_space_units", Leaf (JStr "A"))])];
+        dflts := [probe; yaml] |}, None).
+Proof. repeat split; vm_compute; reflexivity. Qed.
+
+Example C19_nonvacuous_refresh_after_sets :
+  Forall no_upd [Do (SSet None [("mkl", Leaf (JInt 9))]); With (Some (Node [("viz.cmap", Leaf JNone)])) [] [SRefresh []]] /\
+  conf (run validate_nogpu [Do (SSet None [("mkl", Leaf (JInt 9))])] ex3_s) <> conf ex3_s.
+Proof.
+  split; [|vm_compute; discriminate].
+  repeat (apply Forall_cons); try apply Forall_nil; cbn [no_upd no_upd_s]; try exact I.
+  all: repeat (apply Forall_cons); try apply Forall_nil; try exact I.
 Qed.
